@@ -207,6 +207,9 @@ def run(res, ctx):
                 if y != year_of(good[k][1]["deltas"][j]["sd"]):
                     res.violation("broken-correspondence", "model year_of_day disagrees with the calendar on day %d" % good[k][1]["deltas"][j]["sd"],
                                   {"theorem_or_projection": "year_of_day"}, found_input=False)
+    # the real binary writing report files (fresh vs previously used output directory)
+    import props.c06_cli as c06_cli
+    c06_cli.run(res, ctx, rng, st)
     res.coverage.update({
         "evaluations": st["evaluations"],
         "distinct_nontrivial": st["distinct_nontrivial"],
